@@ -331,11 +331,12 @@ CLAIMED["C17"] = dict(
          "SCTP receiver (all DATA / FORWARD-TSN event lists: same deliveries at the same steps, SACKs differ only "
          "by the shift, gap blocks identical), the jitter buffer (sequence numbers mod 2^16 and timestamps mod "
          "2^32), receiver statistics / reports, and the SCTP sender (all message / SACK / T3 / transmit histories: "
-         "same congestion state and decisions, outputs' TSNs shifted) - 7 theorems. The NACK generator and the RTP "
-         "retransmission history are characterised exactly for every origin by C11_nack_complete and C11_history. "
-         "PARTIAL: stream sequence number and reconfiguration sequence number origins are covered by the "
-         "metamorphic re-run of the implementation (SSN origins just below the 16-bit wrap with FORWARD-TSN that "
-         "really abandon ordered messages; two-endpoint runs with TSN origins across the wrap), not by a theorem.",
+         "same congestion state and decisions, outputs' TSNs shifted), and the receiver under a shift of every stream "
+         "sequence number mod 2^16 (same deliveries and SACKs at every step) - 8 theorems. The NACK generator and "
+         "the RTP retransmission history are characterised exactly for every origin by C11_nack_complete and "
+         "C11_history. PARTIAL: reconfiguration sequence number origins and the sender's SSN counter are covered by "
+         "the metamorphic re-run of the implementation (two-endpoint runs with origins across the wrap; SSN origins "
+         "just below the 16-bit wrap with FORWARD-TSN that really abandon ordered messages), not by a theorem.",
     design_ref="5 / C17",
     note="Gen/Utils.v is validated by value inside Coq (vm_compute) against the Python functions on boundary-biased "
          "pairs each run. Shift theorems are about Model/SctpRecv.v, Model/Jitter.v, Model/Stats.v, each tied to the "
